@@ -123,7 +123,7 @@ impl Env {
         out.push('}');
     }
 
-    fn dump_tx(tx: &Tx) -> String {
+    pub fn dump_tx(tx: &Tx) -> String {
         let mut out = String::from("{n=-;");
         let mut first = true;
         for (name, b) in tx.buckets() {
@@ -395,6 +395,18 @@ impl Env {
                 let b = &self.buckets.get(&num(2)).expect("unknown handle").1;
                 jammdb::verif::tree_dump(b)
             }
+            "snap" => {
+                // keep a copy of the whole file under <db path>.<name> (for the image / golden streams)
+                let dst = format!("{}.{}", self.cfg.path, f[1]);
+                std::fs::copy(&self.cfg.path, &dst).expect("copy db file");
+                "ok".into()
+            }
+            "usefile" => {
+                // start from a copy of an existing database file instead of a fresh one
+                self.close_all();
+                std::fs::copy(f[1], &self.cfg.path).expect("copy golden file");
+                "ok".into()
+            }
             "fhash" => {
                 // FNV-1a over the whole file: "the file's bytes are unchanged"
                 let data = std::fs::read(&self.cfg.path).expect("read db file");
@@ -420,6 +432,11 @@ pub fn main(args: &[String]) {
         let line = line.unwrap();
         let line = line.trim();
         if line.is_empty() || line.starts_with('#') {
+            continue;
+        }
+        if line.starts_with('!') {
+            // an operation that was performed when the (golden) file was created: only the model replays it
+            writeln!(out, "{}", line).unwrap();
             continue;
         }
         let f: Vec<&str> = line.split(' ').collect();
